@@ -432,6 +432,25 @@ func c13Cases(group string) []c13Case {
 				}
 			}
 		}
+	case "G7-cross":
+		// cross terms of G1..G4: response type x response mode x state x nonce x scope x grants on three registrations
+		for _, rs := range [][]string{all, {"code"}, {"code id_token token", "code"}} {
+			for _, gs := range [][]string{allG, {"authorization_code", "refresh_token"}} {
+				for _, rt := range c13Requested() {
+					for _, m := range []string{"", "query", "fragment", "form_post"} {
+						for _, st := range []string{strOfLen(7), strOfLen(8)} {
+							for _, no := range []string{"-", strOfLen(7), strOfLen(8)} {
+								for _, sc := range []string{"a", "openid a"} {
+									for _, nr := range []bool{false, true} {
+										cs = append(cs, c13Case{Group: group, RegRT: rs, RegGrants: gs, RegModes: []string{"query", "fragment", "form_post"}, URIs: 1, RT: rt, Mode: m, State: st, Nonce: no, Scope: sc, NoRedir: nr})
+									}
+								}
+							}
+						}
+					}
+				}
+			}
+		}
 	case "G5-request-objects":
 		for _, ro := range []string{"rs256-registered", "es256-registered", "ps256-registered", "rs256-other-key", "rs256-unknown-kid", "es256-other-key", "none", "hs256-client-secret", "hs256-public-key", "rs256-tampered", "uri-registered", "uri-unregistered", "uri-fetch-fails", "both"} {
 			for _, alg := range []string{"", "RS256", "ES256", "PS256", "none", "HS256"} {
@@ -446,7 +465,7 @@ func c13Cases(group string) []c13Case {
 	return cs
 }
 
-var c13Groups = []string{"G1-response-types", "G2-response-modes", "G3-state-nonce", "G4-redirect-uri", "G5-request-objects", "G6-jwks-uri"}
+var c13Groups = []string{"G1-response-types", "G2-response-modes", "G3-state-nonce", "G4-redirect-uri", "G5-request-objects", "G6-jwks-uri", "G7-cross"}
 
 func init() {
 	registerWorker("c13", func(arg json.RawMessage) (any, error) {
@@ -506,8 +525,8 @@ func init() {
 		}
 		r.Bounds = map[string]any{"groups": sizes, "G1": "8 registered response-type sets x 4 grant sets x public x all ordered response_type lists of <=3 tokens over {code,token,id_token,bogus} (incl. duplicates, empty) x scope{a, openid a}",
 			"G2": "6 response-mode registrations x 5 requested modes x 7 response types x openid", "G3": "MinParameterEntropy{8,12} x 7 state values x 7 nonce values x 7 response types x openid",
-			"G4": "1|2 registered URIs x redirect_uri present/absent x 3 scopes x 7 response types x 4 grant sets", "G5": "14 request-object variants x 6 registered algorithms x 3 response types x openid", "G6": "request objects verified through jwks_uri (in-memory transport, real DefaultJWKSFetcherStrategy and cache): 4 look-alike URI pairs x 3 cross-client presentations after a warm-up"}
-		r.Rule = "each group is a full product, every case is sent to the real authorization endpoint of a fresh provider; an accepted request must satisfy every listed condition (one-sided), tokens never appear in the query, state is echoed on every redirect, issued codes are carried to the token endpoint; cross terms between groups are not covered; distinct = distinct accepted cases"
+			"G4": "1|2 registered URIs x redirect_uri present/absent x 3 scopes x 7 response types x 4 grant sets", "G5": "14 request-object variants x 6 registered algorithms x 3 response types x openid", "G7": "cross terms: 3 registrations x 2 grant sets x every response_type list x 4 modes x state{7,8} x nonce{-,7,8} x openid x redirect_uri present/absent", "G6": "request objects verified through jwks_uri (in-memory transport, real DefaultJWKSFetcherStrategy and cache): 4 look-alike URI pairs x 3 cross-client presentations after a warm-up"}
+		r.Rule = "each group is a full product, every case is sent to the real authorization endpoint of a fresh provider; an accepted request must satisfy every listed condition (one-sided), tokens never appear in the query, state is echoed on every redirect, issued codes are carried to the token endpoint; G7 covers the cross terms of G1-G4 on three registrations; distinct = distinct accepted cases"
 		r.Assumptions = []string{"hybrid code+id_token without the implicit grant (ID token only) and unsigned request objects for a client with no registered algorithm are don't-care", "request_uri documents are served by an in-memory HTTP transport"}
 		res := r.Pool.Do("c13", jobs, r.Deadline)
 		if !r.MergeJobs(res) {
